@@ -45,7 +45,7 @@ META = dict(
                  "after a conflict the SAT solver retracts at least the newest literal of the explanation before asserting again"],
     needs_impl=True,
     rule="per theory (LRA, LIA, IDL, RDL, UF, AX) pools of 6..12 literals over 3..4 variables / 4 constants + 2 functions + 1 predicate / 2 arrays; "
-         "histories of 25..60 operations: declare (most up front; LA, UF, AX: a fifth late, in 40% of the histories half of the atoms late and each late "
+         "histories of 25..60 operations: declare (most up front; LA, UF: a fifth late, in 40% of the histories half of the atoms late and each late "
          "declaration usually followed by assert / check / backtrack of that atom), assert +/-, assert a pending theory deduction, drain deductions, "
          "backtrack 1..4 (sometimes everything), check(false), check(true) (+ fresh instance). non-trivial = history with >= 1 backtrack and >= 1 "
          "verdict after it; a fifth of the LA histories are of the family 'bounds implied by an active bound' (a chain of bounds of one kind on a "
@@ -272,7 +272,7 @@ def gen_ops(r, natoms, nops, late_ok=True, pos_bias=0.5):
             if heavy and r.random() < 0.7:
                 ops.append("A%d%s" % (k, "+" if r.random() < max(pos_bias, 0.6) else "-"))
                 if r.random() < 0.6:
-                    ops.append("C1")
+                    ops += ["C1", "F"]
                 if r.random() < 0.6:
                     ops.append("B1")
         elif x < 0.56:
@@ -286,9 +286,7 @@ def gen_ops(r, natoms, nops, late_ok=True, pos_bias=0.5):
         elif x < 0.74:
             ops.append("C0")
         elif x < 0.88:
-            ops.append("C1")
-            if r.random() < 0.4:
-                ops.append("F")
+            ops += ["C1", "F"]
         else:
             ops.append("B%d" % (r.choice([1, 1, 1, 2, 2, 3, 4, 99])))
     ops += ["C1", "F"]
@@ -380,6 +378,9 @@ def events_of(lines):
             ev.append(dict(kind="ded", lits=lits, foreign=foreign, stack=list(stack), la=[]))
         elif w[0] == "fresh":
             ev.append(dict(kind="fresh", verdict=w[2], splits="splits" in w, stack=list(stack), la=[]))
+        elif w[0] == "freshlate":
+            if ev and ev[-1]["kind"] == "fresh":
+                ev[-1]["freshlate"] = w[2]
         elif w[0] in ("lastore", "lastate", "labounds", "labound", "freshbounds", "dlstate"):
             if ev:
                 ev[-1]["la"].append(line)
@@ -456,6 +457,15 @@ def query_keys(th, ev):
     return list(uniq)
 
 
+def declare_order_suffix(ev, i):
+    """A wrong SAT at event i: does a fresh instance that is given ONLY the surviving assertions, with the declarations at the
+    same places relative to them, give the same wrong SAT?  Then no retracted literal is involved: the verdict depends on
+    WHEN an atom was declared, not on what was asserted and retracted (separate signature)."""
+    if i + 1 < len(ev) and ev[i + 1]["kind"] == "fresh" and ev[i + 1]["stack"] == ev[i]["stack"] and ev[i + 1].get("freshlate") == "SAT":
+        return ":declare-order"
+    return ""
+
+
 def judge(th, atoms, z3decl, ev, answers=None):
     """-> list of findings dict(sig, what, index)"""
     out = []
@@ -487,7 +497,7 @@ def judge(th, atoms, z3decl, ev, answers=None):
             out.append(dict(sig="explanation-not-unsat:%s" % th, index=i, lits=q,
                             what="inconsistency reported with explanation %s, which is T-satisfiable (z3)" % (q,)))
         elif role == "sat" and v == "unsat":
-            out.append(dict(sig="sat-on-unsat-set:%s" % th, index=i, lits=q,
+            out.append(dict(sig="sat-on-unsat-set:%s%s" % (th, declare_order_suffix(ev, i)), index=i, lits=q,
                             what="complete check answered SAT but the current literal set %s is T-unsatisfiable (z3)" % (q,)))
         elif role == "ded" and v == "sat":
             out.append(dict(sig="deduction-not-entailed:%s" % th, index=i, lits=q,
@@ -509,7 +519,7 @@ def judge(th, atoms, z3decl, ev, answers=None):
             continue
         b = e["verdict"]
         if (th in COMPLETE and {a, b} == {"SAT", "UNSAT"}) or (th not in COMPLETE and a == "SAT" and b == "UNSAT" and False):
-            out.append(dict(sig="incremental-vs-fresh:%s" % th, index=i, lits=e["stack"],
+            out.append(dict(sig="incremental-vs-fresh:%s%s" % (th, declare_order_suffix(ev, i - 1) if a == "SAT" else ""), index=i, lits=e["stack"],
                             what="after the history the solver answers %s on the stack %s, a fresh instance answers %s" % (a, e["stack"], b)))
     return out
 
@@ -705,7 +715,9 @@ def run(ctx):
             hdr, atoms, z3decl, ops = chain_la(r, th == "LRA")
         else:
             hdr, atoms, z3decl = gen_pool(r, th)
-            ops = gen_ops(r, len(atoms), r.randint(25, 60), late_ok=th in ("LRA", "LIA", "UF", "AX"), pos_bias=0.7 if th in ("UF", "AX") else 0.5)
+            ops = gen_ops(r, len(atoms), r.randint(25, 60), late_ok=th in ("LRA", "LIA", "UF"), pos_bias=0.7 if th in ("UF", "AX") else 0.5)
+        # every complete check is followed by the fresh-instance comparison
+        ops = [x for k, o in enumerate(ops) for x in ([o, "F"] if o == "C1" and (k + 1 == len(ops) or ops[k + 1] != "F") else [o])]
         seqs.append((th, hdr, atoms, z3decl, ops))
     t0 = time.time()
     # harness: chunks of sequences, in parallel
